@@ -371,6 +371,11 @@ def run_mc(plan, scratch, red, algo='DFS', strategy='none', randseed=None, max_e
     # simgrid_mc.cpp leaves at once (status 0) when no actor is enabled in the initial state
     res['empty_program'] = 'did not do any transition before terminating' in text
     res['finished'] = (not to) and (not stalled) and (not looping) and rc in (0, 1, 2) and (res['ended'] or res['empty_program'])
+    # BeFSExplorer lets the exception of an assertion failure reach main(): the exploration stops at the first one even
+    # when max-errors asks to go on (exit status 1 instead of 2): what was not visited cannot be judged
+    res['stopped_at_error'] = bool(max_errors is not None and max_errors < 0 and rc == 1)
+    if res['stopped_at_error']:
+        res['finished'] = False
     res['unsupported'] = None
     for c in res['criticals']:
         if 'no specialized computation for the transition' in c or 'does currently not support' in c or \
@@ -403,7 +408,9 @@ def _split_runs(text):
 def norm_sig_line(msg):
     """status line of a blocked actor without what depends on the interleaving that led there: communication ids are
     allocated in creation order"""
-    return re.sub(r'comm_id:\s*\d+', 'comm_id:*', msg.strip())
+    s = re.sub(r'comm_id:\s*\d+', 'comm_id:*', msg.strip())
+    # the name of the mailbox is lost ('-') once an iprobe has looked at the communication: keep the id only
+    return re.sub(r'mbox:[^ (]*\(id:', 'mbox:(id:', s)
 
 
 def deadlock_sig_of_stderr(text):
